@@ -9,13 +9,11 @@ class C36(Spec):
                          "C36.recv_at_most_once_from", "C36.recv_delivers_sent_request",
                          "C36.close_unblocks", "C36.after_close_outcomes", "C36.wait_after_close_returns",
                          "C36.send_after_client_close", "C36.closeclient_closes",
-                         "C36.never_panics_partial", "C36.never_panics_full_false", "C36.close_recv_never_panics",
+                         "C36.never_panics", "C36.old_close_panics_on_overlap",
                          "C36.discipline_necessary", "C36.reach_inv", "C36.reach_cinv")
-    partial = ("C36.never_panics_partial: no two Close calls of the same client overlap (closeOverlap = false)",
-               "C36.reply_matches_request / recv_at_most_once: callers follow the FreeMessage contract (Reach only "
+    partial = ("C36.reply_matches_request / recv_at_most_once: callers follow the FreeMessage contract (Reach only "
                "contains disciplined frees); C36.discipline_necessary is the counterexample without it")
-    refuted = ("C36.never_panics_full_false: two overlapping client.Close() calls, second close(client.done) panics "
-               "(replayed on the real code: finding C36|client.Close|panic-on-concurrent-close)",)
+    refuted = ()
     level_text = ("Lean LTS of the message bus (one label per atomic step of queue.go/client.go: NewMessage, Send on the "
                   "high/low channel incl. blocked senders, subscriber forward, Reply, Wait/WaitTimeout, FreeMessage, "
                   "closeTopic, queue Close, and the requester's client.Sub/Close split at its racy points). Races of Go's "
@@ -27,8 +25,10 @@ class C36(Spec):
                   "request of its object; after a close of the topic/queue/requester's client every new send returns "
                   "closed, the done-branch of every wait and of every blocked sender is enabled, and no enabled branch "
                   "yields `blocked`; clientClosed is reachable (closeclient_closes + examples). Panic is an explicit "
-                  "outcome: the claim 'no step panics' is refuted by two overlapping Close calls (replayed on the real "
-                  "code, known finding) and proved when Close calls of one client do not overlap. Tie: a scripted driver "
+                  "outcome: never_panics proves that no step of any reachable state panics, overlapping Close calls "
+                  "included (compare-and-swap on isCloseing, /repo c931423); the pre-fix Close is kept as configuration "
+                  "oldClose with the regression witness old_close_panics_on_overlap, and the harness's concurrent "
+                  "double-Close probe (which found the defect on the real code) stays strict. Tie: a scripted driver "
                   "performs the same labels on real queue objects (pointer-identified, so pool recycling is observed), "
                   "outputs compared line by line with the compiled model; where a select race is open (reply buffered at "
                   "a close) the harness reports the branch Go took and the model must allow it with the same output; "
@@ -47,17 +47,17 @@ class C36(Spec):
                   "close is allowed by the model and not exercised. Abstractions declared in the Model docstring: the "
                   "channel + client.recv buffer + pump hand are one list; client.Close's drain loop (ErrChannelClosed "
                   "replies to requests still in client.recv) is indistinguishable from the done branch for the requester "
-                  "and not modelled. 'Or crashing': panic sources enumerated — (1) Wait/Send panic on ErrQueueTimeout: "
+                  "and not modelled. client.Close itself hangs in wg.Wait() when the subscriber stopped reading Recv with more "
+                  "than 5 messages pending (the pump blocks on the full buffer) — outside the send/wait clauses; the "
+                  "harness drains Recv during closetopic like a real module. 'Or crashing': panic sources enumerated — (1) Wait/Send panic on ErrQueueTimeout: "
                   "dead code, timeout -1 gives a nil timer channel, so the model has no timer branch for them; (2) "
-                  "close(client.done) twice by overlapping Close calls: modelled, refuted/partial theorems, real-code "
-                  "replay; (3) close(client.recv) twice: modelled, proved unreachable (close_recv_never_panics); (4) Sub "
-                  "racing Close of the same client (a pump started between close(done) and isCloseing=1 could send on the "
-                  "closed recv) and CloseQueue called twice without Start (blocks on `interrupt`): not modelled, covered "
-                  "by nothing but the stress run's panic counter; (5) sends/waits/replies themselves: covered by the "
+                  "close(client.done) / close(client.recv) twice by overlapping Close calls: modelled, proved "
+                  "unreachable (never_panics), probed on the real code; (3) Sub racing Close of the same client beyond "
+                  "the isCloseing check and CloseQueue called twice without Start (blocks on `interrupt`): not modelled, "
+                  "covered by nothing but the stress run's panic counter; (4) sends/waits/replies themselves: covered by the "
                   "stress run (panic predicate) and by gen.Guard in the scripted run.")
     assumptions = ("callers follow the FreeMessage contract (in-repo callers free only after a successful Wait)",
-                   "Go channels/select/sync.Pool behave as specified by the language/runtime",
-                   "for the no-panic clause: Close calls of one client do not overlap (otherwise: known finding)")
+                   "Go channels/select/sync.Pool behave as specified by the language/runtime")
     quick_timeout = 600
 
 
